@@ -8,7 +8,6 @@ PROP_LEVEL['C14'] = 'proof'
 PROP_TRUSTED['C14'] = [
     "input files are modelled by the writer's layout (C04) with symbolic data bytes; antenna/polarisation counts of the antenna source match the input (precondition from the call sites)",
     "stage contracts as in C02; the requantiser target statistics set from the decoded block are covered by the bounded native run",
-    "from_data's framing clauses are discharged in the C04 check (from_data_header_size)",
 ]
 PROP_EXPLANATION['C14'] = "decode = inverse of the GUPPI layout (8/4 bit), bytes consumed per block, per-sub-block composition with the input, stationary gain (frame condition on channelized_stds), block clamp"
 
@@ -194,3 +193,9 @@ def _register():
 
 
 _register()
+
+
+# from_data's framing (header size used to step through the input, block size, bit depth, channel and block counts): the same contract
+# function as in the C04 check, discharged again here because "padded or unpadded headers" is a clause of this property
+contract('C14', 'from_data_framing', functions=[BK + '.from_data', C4.RU + ':get_raw_params'],
+         note="from_data: header size == the input's written header size (padded iff DIRECTIO != 0), same block size / bits / channels / block counts")(C4.from_data_header_size)
